@@ -7,10 +7,10 @@
      AllBytes   Proofs/NameText.v    every octet in 0..255
      good       Proofs/NameProducers.v   Ok(valid name) or a library exception; never Internal
      desc       Proofs/NameWire.v    strictly decreasing list of offsets below a bound
-     TableSound Proofs/NameCompress.v (compression theorems, when present, are in Props/C01.v below) *)
+     TableSoundW / TableExact / NoCaseAlias / full_name / Dec   Proofs/NameCompress.v *)
 From DV Require Import Base.Prelude Model.NameM.
 From DV Require Import Proofs.NameOrder Proofs.NameValid Proofs.NameRel Proofs.NameSucc.
-From DV Require Import Proofs.NameText Proofs.NameWire Proofs.NameProducers.
+From DV Require Import Proofs.NameText Proofs.NameWire Proofs.NameProducers Proofs.NameCompress.
 Open Scope Z_scope.
 
 (* ---- _validate_labels decides exactly the DNS limits ---- *)
@@ -111,6 +111,49 @@ Proof.
 Qed.
 Print Assumptions producers_valid.
 
+(* ---- compression: Name.to_wire(file, table, origin, canonicalize) ---- *)
+(* For every message prefix `file`, every table that is sound for it (each offset <= 0x3FFF and
+   from_wire at that offset yields a name equal to the key), every valid name and origin:
+   the output extends the message, the table stays sound (so the invariant carries through a
+   whole message), every new offset is <= 0x3FFF, and the independent decoder from_wire, run at
+   the offset where the name was written, returns a name equal to the written one under the
+   library's (ASCII-case-insensitive) equality and consumes exactly the octets emitted. *)
+Theorem compress_sound : forall (n : name) (origin : option name) (canon : bool)
+    (file : list Z) (t : ctable) (file' : list Z) (t' : ctable) (labels : name),
+  Forall (fun c => 0 <= c) file ->
+  (forall k v, In (k, v) t -> Valid k) ->
+  TableSoundW file t -> Valid n -> full_name n origin = Ok labels ->
+  to_wire_compress n origin canon file t = Ok (file', t') ->
+  exists em n',
+    file' = file ++ em /\ TableSoundW file' t' /\ (forall k v, In (k, v) t' -> Valid k) /\
+    from_wire file' (length file) = Ok (n', length em) /\ ci_equal n' labels /\
+    (exists new, t' = t ++ new /\ Forall (fun kv => 0 <= snd kv <= 16383) new).
+Proof. exact NameCompress.compress_sound_W. Qed.
+Print Assumptions compress_sound.
+
+(* byte-identical when no key of the table is a case variant of a suffix being written
+   (and the name is not canonicalized) *)
+Theorem compress_exact : forall (n : name) (origin : option name)
+    (file : list Z) (t : ctable) (file' : list Z) (t' : ctable) (labels : name),
+  TableExact file t -> Valid n -> full_name n origin = Ok labels -> NoCaseAlias t labels ->
+  to_wire_compress n origin false file t = Ok (file', t') ->
+  exists em,
+    file' = file ++ em /\ TableExact file' t' /\
+    from_wire file' (length file) = Ok (labels, length em).
+Proof. exact NameCompress.compress_exact. Qed.
+Print Assumptions compress_exact.
+
+(* the relation Dec used by TableExact is exactly the decoder *)
+Theorem decode_relation_sound : forall msg off ls h,
+  Dec msg off off ls h -> Valid ls -> from_wire msg off = Ok (ls, (h - off)%nat).
+Proof. exact NameCompress.Dec_from_wire. Qed.
+Print Assumptions decode_relation_sound.
+
+Theorem decode_relation_complete : forall msg off n c, Forall (fun c => 0 <= c) msg ->
+  from_wire msg off = Ok (n, c) -> exists h, Dec msg off off n h /\ c = (h - off)%nat /\ Valid n.
+Proof. exact NameCompress.from_wire_Dec. Qed.
+Print Assumptions decode_relation_complete.
+
 (* ---- non-vacuity ---- *)
 Definition ex_name : name := [[119; 46; 64; 0; 255; 92; 34]; [36; 65]; []].   (* labels: w.@ NUL 0xff backslash dquote ; $A ; root *)
 Example ex_valid : Valid ex_name /\ AllBytes ex_name /\ is_absolute ex_name = true.
@@ -138,3 +181,22 @@ Example ex_limits : mk_name [repeat 97 64] = Lib eLabelTooLong /\ mk_name [[]; [
   /\ mk_name [repeat 97 63; repeat 97 63; repeat 97 63; repeat 97 61; []]
      = Ok [repeat 97 63; repeat 97 63; repeat 97 63; repeat 97 61; []].
 Proof. repeat split; vm_compute; reflexivity. Qed.
+
+(* compression with a case variant: the second name points into the first; decoding yields the
+   first spelling of the shared suffix (equal, not byte-identical) *)
+Definition ex_com1 : name := [[101; 120]; [67; 79; 77]; []].            (* ex.COM. *)
+Definition ex_com2 : name := [[119]; [69; 88]; [99; 111; 109]; []].     (* w.EX.com. *)
+Example ex_compress :
+  exists f1 t1 f2 t2,
+    to_wire_compress ex_com1 None false (repeat 0 12) [] = Ok (f1, t1) /\
+    to_wire_compress ex_com2 None false f1 t1 = Ok (f2, t2) /\
+    from_wire f2 12 = Ok (ex_com1, 8%nat) /\
+    from_wire f2 20 = Ok ([[119]; [101; 120]; [67; 79; 77]; []], 4%nat) /\
+    map snd t2 = [12; 15; 20].
+Proof. do 4 eexists. repeat split; vm_compute; reflexivity. Qed.
+Example ex_table_sound : TableSoundW (repeat 0 12) [] /\ TableExact (repeat 0 12) [] /\ NoCaseAlias [] ex_com1.
+Proof. split; [|split]; intros k v []. Qed.
+(* offsets above 0x3FFF are not entered into the table *)
+Example ex_no_entry_above_3fff :
+  exists f1, to_wire_compress ex_com1 None false (repeat 0 16384) [] = Ok (f1, []).
+Proof. eexists. vm_compute. reflexivity. Qed.
